@@ -49,7 +49,9 @@ def main():
     first = demo.splitlines()[0] if demo else ""
     head = "\n".join(demo.splitlines()[:6])
     mf = re.search(r"-F\s*([\w,]+)", head) or re.search(r"--features[= ]([\w,]+)", head)
-    if mf:
+    if re.search(r"no (cargo )?features", head):
+        feats = ""
+    elif mf:
         feats = "-F " + mf.group(1)
     elif "svg,image" in head or "image" in first:
         feats = "-F svg,image"
